@@ -11,7 +11,7 @@
    with C02's model of PlainEnglish::parse + the passes of Document::parse (u = Unicode predicates of the lexer),
    `one_word u w` decides whether w alone is exactly one Word token, `lint_text` = tokenise, then lint. *)
 Require Import Base Tables_lexer Lexer Condense Tables_spellnorm SpellDecision SpellDecisionProofs.
-Require Import Tables_f24 C06Words C06WordsProofs C06TextProofs.
+Require Import Tables_f24 C06Words C06WordsProofs C06TextProofs C06AlnumProofs C06DictProofs.
 
 (* the decision, exactly: a word token with text w is accepted iff some entry has its id and is compatible with
    the active dialect, and some entry is spelt — up to normalisation of both sides (ebb53b3) — exactly like w or
@@ -408,6 +408,141 @@ Check C06_multi_token_text_refuted :
     doc_words ascii_uni0 (canon e) = Ok f24_words /\
     lint_text ascii_uni0 ascii_lc ascii_uc ascii_is_lower ascii_is_upper no_fuzzy D d (canon e) = Ok ls /\ ls <> [].
 Print Assumptions C06_multi_token_text_refuted.
+
+(* ================= phase 4: the extended word class and the table derived from the dictionary SOURCES ================= *)
+
+(* what lex_word really accepts: a letter followed by letters or ASCII digits (MP3, IPv4, Y2K), optionally one
+   apostrophe (' or U+2019) and another such word (MP3's) — alone, it is exactly one Word token.  digit_law: an ASCII
+   digit is_numeric (lex_plural_digit looks at is_alphanumeric of the character after `Xs`); monitored *)
+Theorem C06_alnum_word_one_word :
+  forall u : uni, letter_laws u -> digit_law u -> forall w : text, alnum_word u w ->
+  document_plain u w = Ok [mktok (mkspan 0 (length w)) KWord] /\ one_word u w = true.
+Proof. exact (fun u L Dl w A => conj (alnum_word_document u L Dl w A) (alnum_word_one_word u L Dl w A)). Qed.
+Check C06_alnum_word_one_word :
+  forall u : uni, letter_laws u -> digit_law u -> forall w : text, alnum_word u w ->
+  document_plain u w = Ok [mktok (mkspan 0 (length w)) KWord] /\ one_word u w = true.
+Print Assumptions C06_alnum_word_one_word.
+
+(* the class of C06_simple_word_one_word is inside the new one *)
+Theorem C06_simple_word_is_alnum_word :
+  forall (u : uni) (w : text), simple_word u w -> alnum_word u w.
+Proof. exact simple_word_alnum. Qed.
+Check C06_simple_word_is_alnum_word :
+  forall (u : uni) (w : text), simple_word u w -> alnum_word u w.
+Print Assumptions C06_simple_word_is_alnum_word.
+
+(* the converse half of the property for such a word, with NO premise about tokens: written alone, a word of the class
+   whose id no entry has draws exactly one lint, covering exactly the word *)
+Theorem C06_alnum_word_alone_reported :
+  forall (u : uni) (lc uc : char -> list char) (is_lower is_upper : char -> bool) (fuzzy : dict -> text -> nat -> list text),
+  letter_laws u -> digit_law u -> (forall c, uc c <> []) -> fuzzy_listed fuzzy ->
+  forall D d w, dict_nodup lc is_lower D -> alnum_word u w ->
+  (forall e, In e D -> word_id lc is_lower (canon e) <> word_id lc is_lower w) ->
+  exists sg, lint_text u lc uc is_lower is_upper fuzzy D d w = Ok [mkslint (mkspan 0 (length w)) sg].
+Proof. exact alnum_word_alone_reported. Qed.
+Check C06_alnum_word_alone_reported :
+  forall (u : uni) (lc uc : char -> list char) (is_lower is_upper : char -> bool) (fuzzy : dict -> text -> nat -> list text),
+  letter_laws u -> digit_law u -> (forall c, uc c <> []) -> fuzzy_listed fuzzy ->
+  forall D d w, dict_nodup lc is_lower D -> alnum_word u w ->
+  (forall e, In e D -> word_id lc is_lower (canon e) <> word_id lc is_lower w) ->
+  exists sg, lint_text u lc uc is_lower is_upper fuzzy D d w = Ok [mkslint (mkspan 0 (length w)) sg].
+Print Assumptions C06_alnum_word_alone_reported.
+
+(* ... and the positive half: a listed form of the class draws no lint *)
+Theorem C06_alnum_word_alone_accepted :
+  forall (u : uni) (lc uc : char -> list char) (is_lower is_upper : char -> bool) (fuzzy : dict -> text -> nat -> list text),
+  letter_laws u -> digit_law u -> lower_fix lc is_lower ->
+  forall D d e w, dict_nodup lc is_lower D -> In e D -> dialect_ok (edialect e) d = true ->
+  alnum_word u w ->
+  ( w = canon e
+    \/ (normalized (canon e) = canon e /\ lower_case lc is_lower (canon e) /\ w = capitalise uc (canon e) /\
+        Forall (case_regular lc uc) (firstn 1 (canon e)))
+    \/ (normalized (canon e) = canon e /\ lower_case lc is_lower (canon e) /\ w = upper uc (canon e) /\
+        Forall (case_regular lc uc) (canon e)) ) ->
+  lint_text u lc uc is_lower is_upper fuzzy D d w = Ok [].
+Proof. exact alnum_word_alone_accepted. Qed.
+Check C06_alnum_word_alone_accepted :
+  forall (u : uni) (lc uc : char -> list char) (is_lower is_upper : char -> bool) (fuzzy : dict -> text -> nat -> list text),
+  letter_laws u -> digit_law u -> lower_fix lc is_lower ->
+  forall D d e w, dict_nodup lc is_lower D -> In e D -> dialect_ok (edialect e) d = true ->
+  alnum_word u w ->
+  ( w = canon e
+    \/ (normalized (canon e) = canon e /\ lower_case lc is_lower (canon e) /\ w = capitalise uc (canon e) /\
+        Forall (case_regular lc uc) (firstn 1 (canon e)))
+    \/ (normalized (canon e) = canon e /\ lower_case lc is_lower (canon e) /\ w = upper uc (canon e) /\
+        Forall (case_regular lc uc) (canon e)) ) ->
+  lint_text u lc uc is_lower is_upper fuzzy D d w = Ok [].
+Print Assumptions C06_alnum_word_alone_accepted.
+
+(* the F24 table is DERIVED from the dictionary sources: Tables_f24.dict_nonsimple_entries is what the translator's port
+   of the affix expansion (tools/tables/_c06dict.py; dictionary.dict + affixes.json) yields after removing the simple
+   words; the entries among them that the model lexer does not cut into exactly one Word token are EXACTLY the
+   committed table.  A dictionary change that adds or removes a multi-token entry breaks this proof. *)
+Theorem C06_f24_table_from_dictionary :
+  filter (fun e => negb (one_word f24_uni e)) dict_nonsimple_entries = f24_entries.
+Proof. exact f24_table_from_dictionary. Qed.
+Check C06_f24_table_from_dictionary :
+  filter (fun e => negb (one_word f24_uni e)) dict_nonsimple_entries = f24_entries.
+Print Assumptions C06_f24_table_from_dictionary.
+
+(* entry by entry: a non-simple entry of the dictionary is in the F24 table iff the model lexer does not make it one
+   Word token; the lexer never panics on one *)
+Theorem C06_dict_nonsimple_multi_iff :
+  forall e, In e dict_nonsimple_entries ->
+  (one_word f24_uni e = false <-> In e f24_entries) /\ exists ts, document_plain f24_uni e = Ok ts.
+Proof. exact (fun e H => conj (dict_nonsimple_multi_iff e H) (dict_nonsimple_no_panic e H)). Qed.
+Check C06_dict_nonsimple_multi_iff :
+  forall e, In e dict_nonsimple_entries ->
+  (one_word f24_uni e = false <-> In e f24_entries) /\ exists ts, document_plain f24_uni e = Ok ts.
+Print Assumptions C06_dict_nonsimple_multi_iff.
+
+(* the translator's classification is sound: no entry of the derived table is a simple word (simple_word decided by
+   simple_wordb, complete under letter_laws, which the table's predicates satisfy); the table has no duplicates *)
+Theorem C06_dict_nonsimple_sound :
+  (forall e, In e dict_nonsimple_entries -> ~ simple_word f24_uni e) /\
+  length dict_nonsimple_entries = dict_nonsimple_count /\ NoDup dict_nonsimple_entries.
+Proof. exact (conj dict_nonsimple_sound dict_nonsimple_size). Qed.
+Check C06_dict_nonsimple_sound :
+  (forall e, In e dict_nonsimple_entries -> ~ simple_word f24_uni e) /\
+  length dict_nonsimple_entries = dict_nonsimple_count /\ NoDup dict_nonsimple_entries.
+Print Assumptions C06_dict_nonsimple_sound.
+
+(* non-vacuity: the new premise holds for the ASCII predicates and for the table's; MP3, IPv4, MP3's, MP3’s are words of
+   the class (and entries of the derived table, one Word token); 3D and socio-political are not one token; N.S.A. is one
+   token without being in the class (dotted initialisms are outside the characterisation) *)
+Example C06_nonvacuous_alnum :
+  digit_law ascii_uni0 /\ digit_law f24_uni /\
+  alnum_word ascii_uni0 [77;80;51]%N /\ alnum_word ascii_uni0 [73;80;118;52]%N /\
+  alnum_word ascii_uni0 [77;80;51;39;115]%N /\ alnum_word ascii_uni0 [77;80;51;8217;115]%N /\
+  In [77;80;51]%N dict_nonsimple_entries /\ In [77;80;51;39;115]%N dict_nonsimple_entries /\
+  one_word f24_uni [77;80;51]%N = true /\ ~ In [77;80;51]%N f24_entries /\
+  In [51;68]%N dict_nonsimple_entries /\ one_word f24_uni [51;68]%N = false /\
+  alnum_wordb f24_uni [78;46;83;46;65;46]%N = false /\ one_word f24_uni [78;46;83;46;65;46]%N = true /\
+  In [78;46;83;46;65;46]%N dict_nonsimple_entries.
+Proof.
+  split; [exact ascii_digit_law|]. split; [exact f24_digit_law|].
+  split; [apply alnum_wordb_sound; vm_compute; reflexivity|].
+  split; [apply alnum_wordb_sound; vm_compute; reflexivity|].
+  split; [apply alnum_wordb_sound; vm_compute; reflexivity|].
+  split; [apply alnum_wordb_sound; vm_compute; reflexivity|].
+  split; [apply mem_text_In; vm_compute; reflexivity|]. split; [apply mem_text_In; vm_compute; reflexivity|].
+  split; [vm_compute; reflexivity|].
+  split; [apply dict_alnum_not_f24; vm_compute; reflexivity|].
+  split; [apply mem_text_In; vm_compute; reflexivity|]. split; [vm_compute; reflexivity|].
+  split; [vm_compute; reflexivity|]. split; [vm_compute; reflexivity|]. apply mem_text_In; vm_compute; reflexivity.
+Qed.
+
+(* dictionary {MP3}: `MP3` alone draws no lint, `MP4` alone exactly one lint at [0,3) *)
+Example C06_nonvacuous_alnum_alone :
+  let D := [mkentry [77;80;51]%N None] in
+  dict_nodup ascii_lc ascii_is_lower D /\
+  lint_text ascii_uni0 ascii_lc ascii_uc ascii_is_lower ascii_is_upper no_fuzzy D American [77;80;51]%N = Ok [] /\
+  lint_text ascii_uni0 ascii_lc ascii_uc ascii_is_lower ascii_is_upper no_fuzzy D American [77;80;52]%N
+    = Ok [mkslint (mkspan 0 3) []].
+Proof.
+  cbv zeta. split; [unfold dict_nodup; vm_compute; repeat constructor; cbn; intuition discriminate|].
+  split; vm_compute; reflexivity.
+Qed.
 
 (* ---------- non-vacuity of the second half ---------- *)
 Example C06_letter_laws_satisfiable : letter_laws ascii_uni0 /\ letter_laws f24_uni.
